@@ -6,6 +6,7 @@
 //               L <hex format>                    : lossless format for round-trip events
 // For every event the lookup() result of the same call is logged: C08 is relative to it.
 // usage: drv_format <input> <out-prefix> <shards> <seed> <tier>      (TZDIR must point to zone data)
+#include <cstring>
 #include <ctime>
 #include <fstream>
 #include <limits>
@@ -54,6 +55,16 @@ static std::string libc_strftime(const std::string& fmt, const std::tm& tm) {
   std::vector<char> buf(fmt.size() * 64 + 65536);
   std::size_t len = strftime(&buf[0], buf.size(), fmt.c_str(), &tm);
   return std::string(&buf[0], len);
+}
+
+// A %Z carrying a flag, width or E/O modifier is handed to the C library, which prints the PROCESS's tzname[] for it (the
+// tm it gets has no zone): glibc rewrites tzname[] inside tzset(), which other strftime calls trigger, so under concurrent
+// callers that text is the C library's own race and says nothing about cctz - such formats stay out of the concurrent pass.
+static bool reads_libc_zone(const std::string& f) {
+  // any 'Z' not directly behind a '%' may be such a conversion (or literal text: leaving those out as well costs nothing)
+  for (size_t i = 0; i < f.size(); ++i)
+    if (f[i] == 'Z' && (i == 0 || f[i - 1] != '%')) return true;
+  return false;
 }
 
 int main(int argc, char** argv) {
@@ -111,7 +122,7 @@ int main(int argc, char** argv) {
         VT_GUARD(ubh, (void)detail::format(big, tp, detail::femtoseconds(0), tz); o2 = detail::format(fmt, tp, detail::femtoseconds(fs), tz));
         if (ubh || o2 != o) hist = 0;
       }
-      if (tag == "F" && !ub && hist && (k % 3 == 0 || samples.size() < 600) && samples.size() < 6000)
+      if (tag == "F" && !ub && hist && (k % 3 == 0 || samples.size() < 600) && samples.size() < 6000 && !reads_libc_zone(fmt))
         samples.push_back(Sample{fmt, tp, fs, &tz, o});
       if (tag == "F") {
         std::tm tm = to_tm(al);
